@@ -312,7 +312,7 @@ def step_bound(prog):
     return min(2 * prog.n + 4, 72)
 
 
-def equivalent(impl, spec, hooks, marker_filter, OI=10, E=12, sel_range=None, timeout_ms=300000, compare_ret=False, nparams=0):
+def equivalent(impl, spec, hooks, marker_filter, OI=10, E=12, sel_range=None, timeout_ms=300000, compare_ret=False, nparams=0, pin=()):
     """z3 query: is there an oracle stream on which IMPL and SPEC (with hooks) both terminate within their step
     bounds and their (filtered) event logs / termination kinds differ?
     -> ("unsat"|"sat"|"unknown", schedule or None, stats)"""
@@ -322,6 +322,8 @@ def equivalent(impl, spec, hooks, marker_filter, OI=10, E=12, sel_range=None, ti
     hi = sel_range if sel_range is not None else 1
     for c in conds:
         s.add(z3.ULE(c, hi))
+    for j, v in pin:
+        s.add(conds[j] == v)        # case split on the first oracle values (used when the whole query times out)
     KA, KB = step_bound(impl), step_bound(spec)
     params = [z3.BitVec("p%d" % j, W) for j in range(nparams)]
     for pv in params:
